@@ -1342,6 +1342,19 @@ func (s *BlockAttrsSpec) decode(content *hcl.BodyContent, blockLabels []blockLab
 		vals[name] = attrVal
 	}
 
+	if !cty.CanMapVal(vals) {
+		// Only possible when the element type is (or contains) the dynamic
+		// pseudo-type, so that the attributes can evaluate to values of
+		// different types; cty.MapVal would panic.
+		diags = append(diags, &hcl.Diagnostic{
+			Severity: hcl.DiagError,
+			Summary:  fmt.Sprintf("Inconsistent argument types in %s block", s.TypeName),
+			Detail:   fmt.Sprintf("All of the arguments in a %q block must have the same type.", s.TypeName),
+			Subject:  &block.DefRange,
+		})
+		return cty.UnknownVal(s.impliedType().WithoutOptionalAttributesDeep()), diags
+	}
+
 	return cty.MapVal(vals), diags
 }
 
